@@ -257,6 +257,9 @@ class World:
         self.ret_vals = {}          # fname -> frozenset of enumerators the function can return
         self.global_vals = {}       # global -> frozenset of enumerators it can hold
         self.fact_summ = {}         # fname -> {'T': [disjunct], 'F': [...], 'A': [...]}; disjunct = (nul facts, vs facts) keyed by (param idx, suffix)
+        self.end_marker = {}        # record -> (kind field, enumerator of the end marker, link field): lists ended by a marker element, not by NULL
+        self.nonempty_strs = set()  # (fname, parameter index): every call passes a non-empty string literal
+        self.len_predicates = {}    # fname -> (index of the element parameter, index of the string parameter): true => element length == strlen(string)
         self.enum_universe = {}
         for u in self.units.values():
             for en, names in u.enum_types.items():
@@ -272,6 +275,54 @@ class World:
                     a = c.args()
                     if a and (a[0].str_value() or '').startswith('internal error'):
                         self.record_calls.add(f)
+
+    def nonempty_string_params(self):
+        """(function, parameter index) such that every call in the program passes a non-empty string literal (or the caller's
+        own parameter with that property); functions whose address is taken are excluded"""
+        sites = {}          # (f, i) -> [('lit', bool) | ('param', (g, j)) | ('other',)]
+        taken = set()
+        for un, u in self.units.items():
+            for g, fd in u.functions.items():
+                gp = {c.id: k for k, c in enumerate(x for x in fd.inner if x.kind == 'ParmVarDecl')}
+                callee_refs = set()
+                for c in fd.calls():
+                    f = c.callee()
+                    if f is None:
+                        continue
+                    x = c.inner[0].strip_all() if c.inner else None
+                    if x is not None:
+                        callee_refs.add(id(x))
+                    if f not in self.fn_unit:
+                        continue
+                    for i, a in enumerate(c.args()):
+                        if not (a.type or '').replace('const ', '').replace(' ', '').startswith('char*'):
+                            continue
+                        lit = a.str_value()
+                        x = a.strip_all()
+                        if lit is not None:
+                            sites.setdefault((f, i), []).append(('lit', len(lit) > 0))
+                        elif x.kind == 'DeclRefExpr' and x.ref_kind == 'ParmVarDecl' and x.ref_id in gp:
+                            sites.setdefault((f, i), []).append(('param', (g, gp[x.ref_id])))
+                        else:
+                            sites.setdefault((f, i), []).append(('other',))
+                for n in fd.walk():
+                    if n.kind == 'DeclRefExpr' and n.ref_kind == 'FunctionDecl' and id(n) not in callee_refs:
+                        taken.add(n.ref_name)
+                # a parameter that the function assigns is not its caller's string any more
+                for n in fd.walk():
+                    if n.kind in ('BinaryOperator', 'CompoundAssignOperator', 'UnaryOperator') and (n.opcode in ('=', '++', '--') or n.kind == 'CompoundAssignOperator'):
+                        t = n.inner[0].strip()
+                        if t.kind == 'DeclRefExpr' and t.ref_id in gp:
+                            sites.setdefault((g, gp[t.ref_id]), []).append(('other',))
+        good = set(k for k, l in sites.items() if k[0] not in taken and len(self.fn_unit.get(k[0], ())) == 1 and all(x[0] != 'other' and x != ('lit', False) for x in l))
+        changed = True
+        while changed:
+            changed = False
+            for k in list(good):
+                if any(x[0] == 'param' and x[1] not in good for x in sites[k]):
+                    good.discard(k)
+                    changed = True
+        return good
 
     def _pure_functions(self):
         """functions whose result depends only on their arguments and what they point to, and that write nothing but
@@ -413,6 +464,7 @@ class Engine:
         self._haslabel = {}
         self.undecided = []
         self.exit_states = []
+        self.exit_vals = []    # (path of the returned value | None, state) per value return (keep_exit_states)
         self.keep_exit_states = bool(self.hooks.get('keep_exit_states'))
         self.ret_facts = []    # (const value or None, state) per normal return
         # pure calls whose outcome is worth remembering: the same call text occurs at least twice in this function
@@ -425,6 +477,7 @@ class Engine:
         self.repeated_pure = set(k for k, n in cnt.items() if n >= 2)
         self.ret_consts = []   # per value-return: frozenset of enumerators | None (unknown)
         self.gstores = []      # (global name, frozenset of enumerators | None)
+        self.links = []        # (MemberExpr, base path, base known not to be the end marker, kind fact) per load of a marker-ended list's link field
 
     # ---- paths ---------------------------------------------------------------
     def root_path(self, n):
@@ -509,7 +562,7 @@ class Engine:
                     kf = S.vs.get(base_path + '->' + ow[0]) if base_path is not None else None
                     if not (kf and kf[0] == 'in' and kf[1] <= ow[1]):
                         return None, None
-                return 'N', ('field', '%s.%s' % (rec, field), e.get('why', ''))
+                return 'N', ('field', '%s.%s' % (rec, field), e.get('why', ''), base_path, getattr(node, 'line', None))
             return None, None
         return None, None
 
@@ -663,8 +716,25 @@ class Engine:
                 self.check_deref(s, bv, e, '->' + (e.name or '?'))
             v = self.member_val(s, e, bv)
             self.note_read(s, e, bv, v)
+            if arrow and self.W.end_marker:
+                self.note_link(s, e, bv)
             out.append((s, v))
         return out
+
+    def note_link(self, S, e, bv):
+        """load of the link field of a list that is ended by a marker element: is the element known not to be the marker?"""
+        rec = rec_of(pointee(e.inner[0].type or ''))
+        em = self.W.end_marker.get(rec)
+        if em is None or e.name != em[2]:
+            return
+        kf = S.vs.get(bv.path + '->' + em[0]) if bv.path is not None else None
+        if kf is None:
+            proven = False
+        elif kf[0] == 'in':
+            proven = em[1] not in kf[1]
+        else:
+            proven = em[1] in kf[1]
+        self.links.append((e, bv.path, proven, kf))
 
     def note_read(self, S, e, bv, v):
         if not e.d.get('isArrow'):
@@ -797,7 +867,15 @@ class Engine:
             root_end += 1
         if root_end == len(p) and not decl:
             self.assigned_params.add(p)
+        moved = None
+        if v.path is not None and v.path != p and _ext(p, v.path):
+            # cursor advance `p = p->next`: what is known about the successor is known about the cursor afterwards
+            n = len(v.path)
+            moved = [(d is S.vs, q[n:], f) for d in (S.nul, S.vs) for q, f in d.items() if _ext(v.path, q) and q != v.path]
         S.kill(p)
+        if moved:
+            for is_vs, suf, f in moved:
+                (S.vs if is_vs else S.nul)[p + suf] = f
         if v.nul is not None:
             S.nul[p] = (v.nul, v.src)
         else:
@@ -931,70 +1009,124 @@ class Engine:
         out = []
         for s0, fv in pre:
             for s, vals in self.ev_list(args, s0):
-                if c is None:
-                    out.append((s, UNKNOWN))
-                    continue
-                if c in self.W.record_calls:
-                    self.calls.append((e, c, s.copy(), vals))
-                for i, v in enumerate(vals):
-                    if v.nul in ('N', 'NULL') and is_ptr_type(args[i].type):
-                        if (c, i) not in self.null_args:
-                            self.null_args[(c, i)] = v.src or ('arg', 'NULL is passed by %s()' % self.fname)
-                    if self.W.mustderef.get((c, i)):
-                        self.check_deref(s, v, args[i], 'arg%d of %s()' % (i + 1, c))
-                if c in self.W.noreturn:
-                    self.exited = True
-                    continue
-                for i, v in enumerate(vals):
-                    if v.addr_of is not None and v.path is None:
-                        a = args[i].strip_all()
-                        if a.kind == 'UnaryOperator' and a.opcode == '&':
-                            s.kill(v.addr_of)
-                            s.nul[v.addr_of] = ('U', None)
-                for g in self.W.gwrites.get(c, ()):
-                    s.kill('G:' + g)
-                r = Val()
-                src = self.W.nullable_rets.get(c)
-                if src is not None and is_ptr_type(e.type):
-                    r.nul, r.src = 'N', src
-                rk = self.W.ret_kind.get(c)
-                if rk is not None:
-                    if isinstance(rk, tuple):
-                        i = rk[1]
-                        if i < len(vals):
-                            if vals[i].ename is not None:
-                                r.rk = vals[i].ename
-                            elif vals[i].rk is not None and isinstance(vals[i].rk, tuple):
-                                r.rk = vals[i].rk
-                    else:
-                        r.rk = rk
-                    if r.nul is None:
-                        r.nul = 'NN'
-                rv = self.W.ret_vals.get(c)
-                if rv and r.vs is None:
-                    r.vs = ('in', rv)
-                if c in self.W.pure and not is_ptr_type(e.type) and (c, tuple(a.src() for a in args)) in self.repeated_pure:
-                    pk = self.pure_key(c, args, vals)
-                    if pk is not None:
-                        known = s.pc.get(pk[0])
-                        if known is not None:
-                            out.append((s, Val(const=1 if known[0] else 0)))
-                            continue
-                        r.addr_of = None
-                        r.ctype = pk     # carried to truth(): lets the branch remember the outcome
-                summ = self.W.fact_summ.get(c) if self.W.resolve(self.u, c) is not None else None
-                if summ is not None:
-                    done = False
-                    for tag, const in (('T', 1), ('F', 0), ('A', None)):
-                        for d in summ.get(tag, ()):
-                            s3 = self.apply_summary(s.copy(), d, vals)
-                            if s3 is not None:
-                                out.append((s3, Val(const=const) if const is not None else r))
-                                done = True
-                    if done:
-                        continue
-                out.append((s, r))
+                n0 = len(out)
+                self.call_one(e, c, args, s, vals, out)
+                if c in self.W.len_predicates:
+                    out[n0:] = self.refine_len_predicate(c, args, vals, out[n0:])
         return out
+
+    def refine_len_predicate(self, c, args, vals, res):
+        """c(tok, "lit") is true only for a token whose length is strlen(lit): with a non-empty literal the token is not the
+        end marker (whose length is 0, checked by the rule module).  Splits an unknown outcome."""
+        ti, si = self.W.len_predicates[c]
+        if ti >= len(vals) or si >= len(args) or vals[ti].path is None:
+            return res
+        lit = args[si].str_value()
+        if lit is None:
+            x = args[si].strip_all()
+            if x.kind == 'DeclRefExpr' and x.ref_kind == 'ParmVarDecl' and (self.fname, self.param_idx.get(x.ref_id)) in self.W.nonempty_strs:
+                lit = '?'          # every caller passes a non-empty literal
+        rec = rec_of(pointee(args[ti].type or ''))
+        em = self.W.end_marker.get(rec)
+        if not lit or em is None:
+            return res
+        q = vals[ti].path + '->' + em[0]
+        out = []
+        for s, v in res:
+            if v.const == 0 and v.path is None:
+                out.append((s, v))
+                continue
+            if v.const is None or v.path is not None:
+                f = s.copy()
+                if isinstance(v.ctype, tuple) and v.path is None:     # remembered outcome of a repeated pure call
+                    s.pc[v.ctype[0]] = (True, v.ctype[1])
+                    f.pc[v.ctype[0]] = (False, v.ctype[1])
+                out.append((f, Val(const=0)))
+                v = Val(const=1)
+            cur = s.vs.get(q)
+            if cur is None:
+                uni = self.universe(em[1], None)
+                if uni:
+                    self.set_vs(s, q, ('in', uni - frozenset([em[1]])))
+                else:
+                    s.vs[q] = ('notin', frozenset([em[1]]))
+            elif cur[0] == 'notin':
+                s.vs[q] = ('notin', cur[1] | frozenset([em[1]]))
+            else:
+                r = cur[1] - frozenset([em[1]])
+                if not r:
+                    continue        # the end marker never compares equal to a non-empty string
+                self.set_vs(s, q, ('in', r))
+            out.append((s, v))
+        return out
+
+    def call_one(self, e, c, args, s, vals, out):
+        if c is None:
+            out.append((s, UNKNOWN))
+            return
+        if c in self.W.record_calls:
+            self.calls.append((e, c, s.copy(), vals))
+        for i, v in enumerate(vals):
+            if v.nul in ('N', 'NULL') and is_ptr_type(args[i].type):
+                if (c, i) not in self.null_args:
+                    self.null_args[(c, i)] = v.src or ('arg', 'NULL is passed by %s()' % self.fname)
+            if self.W.mustderef.get((c, i)):
+                self.check_deref(s, v, args[i], 'arg%d of %s()' % (i + 1, c))
+        if c in self.W.noreturn:
+            self.exited = True
+            return
+        for i, v in enumerate(vals):
+            if v.addr_of is not None and v.path is None:
+                a = args[i].strip_all()
+                if a.kind == 'UnaryOperator' and a.opcode == '&':
+                    s.kill(v.addr_of)
+                    s.nul[v.addr_of] = ('U', None)
+        for g in self.W.gwrites.get(c, ()):
+            s.kill('G:' + g)
+        r = Val()
+        src = self.W.nullable_rets.get(c)
+        if src is not None and is_ptr_type(e.type):
+            r.nul, r.src = 'N', src
+        rk = self.W.ret_kind.get(c)
+        if rk is not None:
+            if isinstance(rk, tuple):
+                i = rk[1]
+                if i < len(vals):
+                    if vals[i].ename is not None:
+                        r.rk = vals[i].ename
+                    elif vals[i].rk is not None and isinstance(vals[i].rk, tuple):
+                        r.rk = vals[i].rk
+            else:
+                r.rk = rk
+            if r.nul is None:
+                r.nul = 'NN'
+        rv = self.W.ret_vals.get(c)
+        if rv and r.vs is None:
+            r.vs = ('in', rv)
+        if c in self.W.pure and not is_ptr_type(e.type) and (c, tuple(a.src() for a in args)) in self.repeated_pure:
+            pk = self.pure_key(c, args, vals)
+            if pk is not None:
+                known = s.pc.get(pk[0])
+                if known is not None:
+                    out.append((s, Val(const=1 if known[0] else 0)))
+                    return
+                r.addr_of = None
+                r.ctype = pk     # carried to truth(): lets the branch remember the outcome
+        summ = self.W.fact_summ.get(c) if self.W.resolve(self.u, c) is not None else None
+        if summ is not None:
+            done = False
+            for tag, const in (('T', 1), ('F', 0), ('A', None), ('Z', None)):
+                for d in summ.get(tag, ()):
+                    s3 = self.apply_summary(s.copy(), d, vals)
+                    if s3 is not None:
+                        if tag == 'Z':
+                            out.append((s3, Val(nul='NULL', const=0, src=r.src)))
+                        else:
+                            out.append((s3, Val(const=const) if const is not None else r))
+                        done = True
+            if done:
+                return
+        out.append((s, r))
 
     def pure_key(self, c, args, vals):
         parts = []
@@ -1383,6 +1515,7 @@ class Engine:
                     self.ret_consts.append(self.enum_set(v))
                     if self.keep_exit_states:
                         self.exit_states.append(s2)
+                        self.exit_vals.append((v.path, s2))
             else:
                 self.returns.append((None, None, None))
                 self.ret_facts.append((None, S))
@@ -1547,12 +1680,15 @@ class Engine:
                 if r in roots and f[0] == 'in' and all(isinstance(x, (str, int)) for x in f[1]) and '#' not in q:
                     vs[(roots[r], q[len(r):])] = f
             return (frozenset(nul.items()), frozenset(vs.items()))
-        groups = {'T': set(), 'F': set(), 'A': set()}
+        groups = {'T': set(), 'F': set(), 'A': set(), 'Z': set()}
         pred = bool(self.ret_facts) and all(c in (0, 1) for c, S in self.ret_facts)
+        ptr = is_ptr_type((self.fd.type or '').split('(')[0].strip())
         for c, S in self.ret_facts:
             d = disj(S)
             if pred:
                 groups['T' if c == 1 else 'F'].add(d)
+            elif ptr and c == 0:
+                groups['Z'].add(d)       # `return NULL`: the facts under which the function finds nothing
             else:
                 groups['A'].add(d)
         out = {}
@@ -1565,6 +1701,13 @@ class Engine:
                 ds = [(n, v)]
             out[g] = sorted(ds, key=repr)
         if not pred:
+            if out['Z'] and out['A']:
+                if all(not d[0] and not d[1] for d in out['A'] + out['Z']):
+                    return None
+                return {'A': out['A'], 'Z': out['Z']}
+            out['A'] = sorted(set(out['A']) | set(out['Z']), key=repr)
+            if len(out['A']) > 6:
+                out['A'] = [(frozenset.intersection(*[d[0] for d in out['A']]), frozenset.intersection(*[d[1] for d in out['A']]))]
             if not out['A'] or all(not d[0] and not d[1] for d in out['A']):
                 return None
             return {'A': out['A']}
